@@ -37,6 +37,8 @@ def pub_of(ex, name, d):
     D = tobv(d, W)
     X, Y = PUBX(cid(name), D), PUBY(cid(name), D)
     ex.add(z3.And(z3.ULT(X, z3.BitVecVal(p, W)), z3.ULT(Y, z3.BitVecVal(p, W)), ONCURVE(cid(name), X, Y)))
+    note_oncurve(ex, name, X, Y)
+    note_reduced(ex, X, Y)
     return X, Y
 
 # ---- hkdf
@@ -122,7 +124,7 @@ def ecdh_new_private(ex, a, ins):
     bs = ex.read_bytes(key)
     if len(bs) != 32:
         return (NIL, B_err(ex, 'crypto/ecdh: invalid private key size'))
-    d = from_bytes(bs)
+    d = B.from_bytes_ex(ex, bs)
     D = tobv(d, W)
     ok = z3.And(D != 0, z3.ULT(D, z3.BitVecVal(P256_N, W)))
     if not ex.decide(ok):
@@ -155,11 +157,13 @@ def ecdh_new_public(ex, a, ins):
         return (NIL, B_err(ex, 'crypto/ecdh: invalid public key'))
     if not ex.decide(int_binop('==', bs[0], 4, 8, False)):
         return (NIL, B_err(ex, 'crypto/ecdh: invalid public key'))
-    X, Y = tobv(from_bytes(bs[1:33]), W), tobv(from_bytes(bs[33:]), W)
+    X, Y = tobv(B.from_bytes_ex(ex, bs[1:33]), W), tobv(B.from_bytes_ex(ex, bs[33:]), W)
     P = z3.BitVecVal(P256_P, W)
     ok = z3.And(z3.ULT(X, P), z3.ULT(Y, P), ONCURVE(cid('P-256'), X, Y))
+    note_oncurve(ex, 'P-256', X, Y)
     if not ex.decide(ok):
         return (NIL, B_err(ex, 'crypto/ecdh: invalid public key'))
+    note_reduced(ex, X, Y)
     o = ex.mem.alloc(8, True, 'ecdhPub')
     o.meta = {'ecdh_xy': (X, Y)}
     return (Ptr(o, 0), None)
@@ -168,29 +172,50 @@ def ecdh_new_public(ex, a, ins):
 
 def kob_scalar_base_mult(ex, a, ins):
     c, k = a
-    d = from_bytes(ex.read_bytes(k))
+    d = B.from_bytes_ex(ex, ex.read_bytes(k))
     X, Y = pub_of(ex, 'secp256k1', d)
     return (new_big(ex, X, 32), new_big(ex, Y, 32))
 
 def kob_is_on_curve(ex, a, ins):
     c, x, y = a
     xv, _ = bget(ex, x); yv, _ = bget(ex, y)
+    note_oncurve(ex, 'secp256k1', tobv(xv, W), tobv(yv, W))
     return ONCURVE(cid('secp256k1'), tobv(xv, W), tobv(yv, W))
 
 def _decompress(ex, name, bs):
     """contract of point decompression: (ok, X, Y)"""
     p, n = PN[name]
-    X = tobv(from_bytes(bs[1:33]), W)
+    X = tobv(B.from_bytes_ex(ex, bs[1:33]), W)
     pre = bs[0]
     okp = bor(int_binop('==', pre, 2, 8, False), int_binop('==', pre, 3, 8, False))
     ok = z3.And(tobool(okp), z3.ULT(X, z3.BitVecVal(p, W)), DECOMP_OK(cid(name), X))
     Y = DECOMP_Y(cid(name), X, tobv(pre, 8))
+    # field fact (no point of order 2, p odd): a reduced on-curve point (X0, Y0) is what decompression of
+    # (parity(Y0), X0) returns. Instantiated for the on-curve terms that occur on this path.
+    P = z3.BitVecVal(p, W)
+    for (nm, X0, Y0) in ex.pstate.get('oncurve_terms', []):
+        if nm != name:
+            continue
+        hyp = z3.And(X == X0, z3.ULT(X0, P), z3.ULT(Y0, P), ONCURVE(cid(name), X0, Y0))
+        ex.add(z3.Implies(hyp, z3.And(DECOMP_OK(cid(name), X),
+                                      z3.Implies(z3.Extract(0, 0, Y0) == z3.Extract(0, 0, tobv(pre, 8)), Y == Y0))))
     return ok, X, Y
+
+def note_oncurve(ex, name, X, Y):
+    ex.pstate.setdefault('oncurve_terms', []).append((name, X, Y))
+
+def note_reduced(ex, *vals):
+    """values known to be < p < 2^256 on this path"""
+    for v in vals:
+        if not isinstance(v, int):
+            B.note_bound(ex, v, 32)
 
 def _decomp_axioms(ex, name, X, Y, pre):
     p, n = PN[name]
     # the decompressed point is on the curve, reduced, and its parity matches the prefix
     ex.add(z3.And(z3.ULT(Y, z3.BitVecVal(p, W)), ONCURVE(cid(name), X, Y), z3.Extract(0, 0, Y) == z3.Extract(0, 0, tobv(pre, 8))))
+    note_oncurve(ex, name, X, Y)
+    note_reduced(ex, Y)
 
 def unmarshal_compressed(ex, a, ins):
     curve, data = a
@@ -246,7 +271,7 @@ def ref_ecdsa_verify(ex, a, ins):
     name = curve_name_of(ex, curve)
     p, n = PN[name]
     x, _ = bget(ex, X); y, _ = bget(ex, Y)
-    R, S_ = tobv(from_bytes(ex.read_bytes(r)), W), tobv(from_bytes(ex.read_bytes(s)), W)
+    R, S_ = tobv(B.from_bytes_ex(ex, ex.read_bytes(r)), W), tobv(B.from_bytes_ex(ex, ex.read_bytes(s)), W)
     N = z3.BitVecVal(n, W)
     zz = hash_to_z(ex.read_bytes(z))
     return simp(z3.And(R != 0, S_ != 0, z3.ULT(R, N), z3.ULT(S_, N), ECDSA_OK(cid(name), tobv(x, W), tobv(y, W), tobv(zz, W), R, S_)))
@@ -254,7 +279,7 @@ def ref_ecdsa_verify(ex, a, ins):
 def ref_on_curve(ex, a, ins):
     algo, x, y = a
     name = 'P-256' if algo == 0 else 'secp256k1'
-    return ONCURVE(cid(name), tobv(from_bytes(ex.read_bytes(x)), W), tobv(from_bytes(ex.read_bytes(y)), W))
+    return ONCURVE(cid(name), tobv(B.from_bytes_ex(ex, ex.read_bytes(x)), W), tobv(B.from_bytes_ex(ex, ex.read_bytes(y)), W))
 
 def install(ex):
     S = ex.stubs
